@@ -333,6 +333,89 @@ Qed.
 Print Assumptions C14_declared_elsewhere_refuted.
 
 (* ------------------------------------------------------------------------------------------------ *)
+(** ** Several codemods in one run over the SHARED package stores (`DependencyWriter.add` records a name in the
+       store before, and regardless of, the write) *)
+
+(** Whatever the codemods ask for, in whatever order, over whatever stores: a manifest receives a given (compared)
+    name at most once during the whole run, and never a name it declared at the start. *)
+Theorem C14_run_each_name_once : forall v form idxs cms S0,
+  let '(ls, _) := run_codemods v form idxs cms S0 in
+  forall i n, (count_name v n (writes_to i (concat ls)) <= 1)%nat /\
+              (has_requirement v (st_declared (S0 i)) n = true -> count_name v n (writes_to i (concat ls)) = 0%nat).
+Proof.
+  intros v form idxs cms S0.
+  destruct (run_codemods v form idxs cms S0) as [ls S] eqn:E. intros i n.
+  assert (Hinit : stores_inv v S0 [] S0) by (intros j; apply store_inv_init).
+  pose proof (run_codemods_inv v form idxs S0 cms [] S0 ls S Hinit E i) as [H1 [H2 _]].
+  cbn [app] in *. split; [apply H1|apply H2].
+Qed.
+Print Assumptions C14_run_each_name_once.
+
+Definition C14_run_one_manifest_statement (form : dep_loop) : Prop :=
+  match form with
+  | FirstWinsBreak => forall v idxs cms S0,
+      Forall (fun l => (length (recorded_of l) <= 1)%nat) (fst (run_codemods v form idxs cms S0))
+  | NoBreak => exists v idxs cms S0,
+      ~ Forall (fun l => (length (recorded_of l) <= 1)%nat) (fst (run_codemods v form idxs cms S0))
+  end.
+Lemma C14_run_one_manifest_all form : C14_run_one_manifest_statement form.
+Proof.
+  destruct form; cbn [C14_run_one_manifest_statement].
+  - intros v idxs cms. induction cms as [|deps r IH]; intros S0; cbn [run_codemods]; [constructor|].
+    destruct deps as [|d ds].
+    + specialize (IH S0). destruct (run_codemods v FirstWinsBreak idxs r S0) as [ls S2]. constructor; [cbn; lia|exact IH].
+    + pose proof (visit_stores_first_wins v idxs (d :: ds) S0) as H1.
+      destruct (visit_stores v FirstWinsBreak idxs (d :: ds) S0) as [l S1]. specialize (IH S1).
+      destruct (run_codemods v FirstWinsBreak idxs r S1) as [ls S2]. constructor; [exact H1|exact IH].
+  - exists Canonical, [0%nat; 1%nat], [[ {| dname := [115;101;99;117;114;105;116;121]%N; dline := [115;101;99;117;114;105;116;121;61;61;49;46;51;46;49]%N |} ]],
+           (fun _ => {| st_declared := []; st_writable := true; st_refused := [] |}).
+    vm_compute. intros H. inversion H; subst. lia.
+Qed.
+Theorem C14_run_one_manifest_per_codemod : C14_run_one_manifest_statement dep_loop_form.
+Proof. exact (C14_run_one_manifest_all dep_loop_form). Qed.
+Print Assumptions C14_run_one_manifest_per_codemod.
+
+(** What goes wrong across codemods (as written): the first codemod adds the package; a later codemod that needs the
+    SAME package finds it recorded in every store, gets None everywhere and its description carries the
+    FAILED-dependency notification although the package is now declared; a store that could not be written
+    (index 0 here) holds the name all the same without anything having been written to it. *)
+Theorem C14_later_codemod_notice_refuted : exists S0 idxs deps,
+  let '(ls, Sf) := run_codemods requirement_name_cmp dep_loop_form idxs [deps; deps] S0 in
+  map (notice_of deps) ls = [AddedTo 1; FailedNotice] /\
+  writes_to 1 (concat ls) = deps /\ writes_to 0 (concat ls) = [] /\
+  has_requirement requirement_name_cmp (st_declared (Sf 0%nat)) [115;101;99;117;114;105;116;121]%N = true.
+Proof.
+  exists (fun i => match i with
+                   | O => {| st_declared := [[102;111;111]%N]; st_writable := false; st_refused := [] |}
+                   | _ => {| st_declared := [[98;97;114]%N]; st_writable := true; st_refused := [] |}
+                   end),
+         [0%nat; 1%nat], [ {| dname := [115;101;99;117;114;105;116;121]%N; dline := [115;101;99;117;114;105;116;121;61;61;49;46;51;46;49]%N |} ].
+  destruct requirement_name_cmp, dep_loop_form; vm_compute; repeat split; reflexivity.
+Qed.
+Print Assumptions C14_later_codemod_notice_refuted.
+
+(** Two manifests that can both be written, two codemods needing the same package: the first codemod writes it to
+    manifest 0; for the second codemod manifest 0 answers None (declared) and manifest 1 receives the package too —
+    each manifest got it once (C14_run_each_name_once) but the PROJECT declares it twice after a single run. *)
+Theorem C14_later_codemod_second_manifest_refuted : exists S0 idxs deps,
+  let '(ls, _) := run_codemods requirement_name_cmp FirstWinsBreak idxs [deps; deps] S0 in
+  map recorded_of ls = [[0%nat]; [1%nat]] /\ writes_to 0 (concat ls) = deps /\ writes_to 1 (concat ls) = deps /\ deps <> [].
+Proof.
+  exists (fun _ => {| st_declared := [[102;111;111]%N]; st_writable := true; st_refused := [] |}),
+         [0%nat; 1%nat], [ {| dname := [115;101;99;117;114;105;116;121]%N; dline := [115;101;99;117;114;105;116;121;61;61;49;46;51;46;49]%N |} ].
+  destruct requirement_name_cmp; vm_compute; repeat split; try reflexivity; discriminate.
+Qed.
+Print Assumptions C14_later_codemod_second_manifest_refuted.
+
+Example C14_run_example :
+  let S0 := fun i : nat => {| st_declared := [[83;101;99;117;114;105;116;121]%N]; st_writable := true; st_refused := [] |} in
+  let a := {| dname := [115;101;99;117;114;105;116;121]%N; dline := [115;101;99;117;114;105;116;121;61;61;49;46;51;46;49]%N |} in
+  let b := {| dname := [100;101;102;117;115;101;100;120;109;108]%N; dline := [100;101;102;117;115;101;100;120;109;108;61;61;48;46;55;46;49]%N |} in
+  let '(ls, _) := run_codemods Canonical FirstWinsBreak [0%nat; 1%nat] [[a]; [b]; [b]] S0 in
+  map recorded_of ls = [[]; [0%nat]; [1%nat]] /\ writes_to 0 (concat ls) = [b] /\ writes_to 1 (concat ls) = [b].
+Proof. vm_compute. repeat split; reflexivity. Qed.
+
+(* ------------------------------------------------------------------------------------------------ *)
 (** ** --dry-run: the manifest is left untouched and the same result is returned *)
 
 Definition C14_dry_run_statement (g : dry_guard) : Prop :=
